@@ -110,9 +110,7 @@ def ixAction (ix : Index) : R (Option (String × Int)) :=
 
 /-- the filtering done by a single-field TTL index -/
 def filt (now : Int) (c : Coll) (field : String) (secs : Int) : Coll :=
-  { c with docs := c.docs.filter (fun p => !meetsExpiry field secs now p.2),
-           od := c.od.filter (fun k =>
-             !(c.docs.any (fun p => meetsExpiry field secs now p.2 && pyEq p.1 k))) }
+  { c with docs := c.docs.filter (fun p => !meetsExpiry field secs now p.2) }
 
 theorem expireIndex_eq (now : Int) (c : Coll) (ix : Index) :
     expireIndex now c ix =
@@ -145,16 +143,8 @@ theorem filt_of_clean (now : Int) (c : Coll) (f : String) (s : Int)
     rw [List.filter_eq_self]
     intro p hp
     simp [h p hp]
-  have h2 : c.od.filter (fun k =>
-      !(c.docs.any (fun p => meetsExpiry f s now p.2 && pyEq p.1 k))) = c.od := by
-    rw [List.filter_eq_self]
-    intro k _
-    simp only [Bool.not_eq_true', List.any_eq_false, Bool.and_eq_true, not_and]
-    intro p hp hm
-    rw [h p hp] at hm
-    cases hm
   unfold filt
-  rw [h1, h2]
+  rw [h1]
 
 theorem filt_clean (now : Int) (c : Coll) (f : String) (s : Int) :
     ∀ p ∈ (filt now c f s).docs, meetsExpiry f s now p.2 = false := by
